@@ -549,6 +549,10 @@ class _Metadata:
         object.__setattr__(self, '_fields', fields)
 
     def __getattr__(self, name):
+        # While an instance is being copied or unpickled, it does not have its
+        # dictionary of fields yet. Don't go looking for it here again.
+        if name == '_fields' or (name.startswith('__') and name.endswith('__')):
+            raise AttributeError(name)
         return self._fields.get(name)
 
     def __setattr__(self, name, value):
